@@ -363,6 +363,7 @@ func (c05) Cases(tier string, seed uint64) []fw.Case {
 	lexErrCases(add, r2.Fork(), thorough, names, corpus)
 	soup2Cases(add, r2.Fork(), thorough)
 	tupleCases(add, r2.Fork(), thorough)
+	importKindCases(add)
 	opTypeCases(add, thorough)
 	sort.SliceStable(cases, func(i, j int) bool { return false })
 	return cases
